@@ -384,6 +384,9 @@ class ST:
 
     # comparisons -> concrete bool tensors (fork)
     def _cmp(self, o, op):
+        sp = _cmp_infinite(self.a, o, op)
+        if sp is not None:
+            return sp
         b = _obj(o)
         if b.dtype != object:
             b = _as_float_obj(b)
@@ -490,8 +493,15 @@ def _detach(x):
     return ST(_obj_f(x))
 
 
-@reg("to", "type", "double", "float", "cpu", "cuda", "requires_grad_", "type_as", "detach_")
+@reg("to", "type", "double", "float", "cpu", "cuda", "type_as", "detach_")
 def _ident(x, *a, **k):
+    return x
+
+
+@reg("requires_grad_")
+def _requires_grad_(x, requires_grad=True):
+    if isinstance(x, ST):
+        x.requires_grad = bool(requires_grad)
     return x
 
 
@@ -839,8 +849,30 @@ reg("relu")(lambda x: _clamp(x, min=0))
 
 
 # --- comparisons as torch functions
+def _cmp_infinite(a, o, op):
+    """comparison of (finite) symbolic reals with +-inf: decided without touching the normal form"""
+    v = None
+    if isinstance(o, float):
+        v = o
+    elif isinstance(o, torch.Tensor) and o.numel() == 1 and o.dtype.is_floating_point:
+        v = float(o)
+    if v is None or v == v and abs(v) != float("inf"):
+        return None
+    if v != v:
+        res = op is np.not_equal
+    elif v > 0:
+        res = op in (np.less, np.less_equal, np.not_equal)
+    else:
+        res = op in (np.greater, np.greater_equal, np.not_equal)
+    return torch.full(a.shape, bool(res), dtype=torch.bool)
+
+
 def _cmpf(op):
     def h(x, y, **k):
+        if isinstance(x, ST):
+            sp = _cmp_infinite(x.a, y, op)
+            if sp is not None:
+                return sp
         xa, ya = _obj_f(x), _obj_f(y)
         return torch.from_numpy(_force_bool(op(xa, ya)))
     return h
